@@ -140,6 +140,11 @@ func List(rng *rand.Rand, n int, typeSel int, nServers, nUnits int, limit int) m
 			addr = 0
 		}
 		f := Rand(rng, fmt.Sprintf("f%d", i), servers[rng.Intn(nServers)], units[rng.Intn(nUnits)], addr, typeSel)
+		if len(out) > 0 && rng.Intn(16) == 0 {
+			// the very same definition once more (name included): a multiset, every occurrence is a field of its own
+			out = append(out, out[rng.Intn(len(out))])
+			continue
+		}
 		if len(out) > 0 && rng.Intn(8) == 0 {
 			// a near twin of an earlier field: same target and address, one attribute different
 			f = out[rng.Intn(len(out))]
